@@ -1193,7 +1193,7 @@ class Scheduler:
         self.backend.record_tags(
             TagEntity.Execution,
             self._current_execution.id,
-            chain(self._exec_tags, tags),
+            list(chain(self._exec_tags, tags)),
         )
 
         self.log(
